@@ -823,8 +823,8 @@ theorem C14_nonabsolute_never_stated (fs : FS) (name raw : Bytes) (info : InfoRe
     scanOne cfg fs ⟨name, .ok raw, info⟩ = .skip := by
   have hg := cfg_good_scan
   unfold scanOne
-  simp only [pyReadlinkDenied, hg.delSuffix, hdel, Bool.false_and, Bool.and_false, Bool.false_eq_true, if_false,
-    not_abs_of_head cfg hg fs raw hrel, hg.absFirst, Bool.not_true, Bool.or_false]
+  simp only [pyReadlinkDenied, pyReadlinkEscapes, isfileEscapes, hg.delSuffix, hdel, Bool.false_and, Bool.and_false,
+    Bool.false_eq_true, if_false, not_abs_of_head cfg hg fs raw hrel, hg.absFirst, Bool.not_true, Bool.or_false]
 
 /-- … the one exception, stated exactly: a non-absolute text that DOES end in `" (deleted)"` is looked up
     by `readlink()`'s marker rule (`path_exists_strict`, relative to the monitor's cwd); when that
@@ -838,8 +838,8 @@ theorem C14_nonabsolute_marker_lookup (fs : FS) (name raw : Bytes) (info : InfoR
   have hg := cfg_good_scan
   have ha := cfg_good_access
   unfold scanOne
-  simp only [pyReadlinkDenied, hg.delSuffix, hdel, ha.existsDeniedRaises, Bool.true_and,
-    not_abs_of_head cfg hg fs raw hrel, hg.absFirst, Bool.not_true, Bool.or_false, Bool.false_and,
+  simp only [pyReadlinkDenied, pyReadlinkEscapes_good cfg ha, isfileEscapes_good cfg ha, hg.delSuffix, hdel,
+    ha.existsDeniedRaises, Bool.true_and, not_abs_of_head cfg hg fs raw hrel, hg.absFirst, Bool.not_true, Bool.or_false, Bool.false_and,
     Bool.false_eq_true, if_false, deniedLinkStep, ha.linkGoneDenied, ha.linkDeniedRaises, if_true]
 
 /-- a file system that refuses every `os.stat` -/
@@ -943,5 +943,105 @@ example :
     expectedOpenFiles ⟨fds, fsW, false, some 1, false, false, true⟩ = .ok [⟨[47, 102], 3, 7, mRp, 2⟩] ∧
     expectedOpenFiles ⟨fds, fsW, false, some 0, false, false, true⟩ = .exc .noSuchProcess ∧
     (⟨fds, fsW, false, some 1, false, false, true⟩ : World).died = true := by decide
+
+/-! ### targets that can no longer be stat'ed: ENOTDIR, ELOOP, ENAMETOOLONG, ESTALE, EIO, … (seeded round 5) -/
+
+/-- obligation over the facts `isfileHandlers` / `existsHandlers`, in its semantic form: in BOTH strict
+    helpers every failure of `os.stat` whose class is not PermissionError — whatever the errno, whatever
+    `OSError` subclass CPython raises for it — is answered `False`; PermissionError is not -/
+theorem cfg_good_stat (cls : Bytes) (h : cls ≠ clsPermissionError) :
+    statAnswer cfg.isfileHandlers cls = some true ∧ statAnswer cfg.existsHandlers cls = some true ∧
+    statFalse cfg.isfileHandlers clsPermissionError = false ∧
+    statFalse cfg.existsHandlers clsPermissionError = false :=
+  ⟨allOthersFalse_spec _ cfg_good_access.isfileOthersFalse cls h,
+   allOthersFalse_spec _ cfg_good_access.existsOthersFalse cls h,
+   cfg_good_access.isfilePermCoherent, cfg_good_access.existsPermCoherent⟩
+
+/-- **the errno of a failing `os.stat` never matters**: for EVERY process (any entries, any link texts,
+    any fdinfo answers, any state) and EVERY file system, replacing the table of stat failures
+    (`FS.statErr`: which names fail, with which errno, as which exception class) by ANY other one —
+    in particular by the empty one — does not change the answer of `open_files()`. A name whose
+    `os.stat` fails with ENOTDIR / ELOOP / ENAMETOOLONG / ESTALE / EIO / … is treated exactly like a
+    name that is not there. -/
+theorem C14_stat_errno_never_matters (fs : FS) (p : Proc) (se : Bytes → Option StatFail) :
+    openFiles cfg { fs with statErr := se } p = openFiles cfg fs p := by
+  unfold openFiles openFilesBody
+  cases p.fdDir with
+  | err e => rfl
+  | ok entries => simp only [scan_statErr cfg cfg_good_access fs se]
+
+/-- the clause "left out and never make the call fail for a live process", at full strength for
+    descriptors whose target cannot be stat'ed, for an arbitrary configuration: over ANY table, ANY
+    file system whose answers are coherent, ANY errno / class of the failures, a live and inspectable
+    process gets exactly the report of the table without those descriptors (and without the closing
+    ones) -/
+def UnstatableLeftOut_Full (c : Cfg) : Prop :=
+  ∀ w : World, Live w → Inspectable w → (∀ d ∈ w.fds, WFFd w.fs d) → StatCoherent w.fs →
+    openFiles c w.fs (renderWorld w)
+      = .ok ((w.fds.filter fun d => !targetUnstatable w.fs d && d.closesAt.isNone).filterMap (listed w.fs))
+
+/-- **a target that can no longer be stat'ed is left out and never fails the call** -/
+theorem C14_unstatable_left_out : UnstatableLeftOut_Full cfg := by
+  intro w hl hi hwf hco
+  rw [C14_closing_fd_never_fails w hl hi hwf, listed_filter_statable w.fs hco, List.filter_filter]
+
+def clsNotADirectoryError : Bytes := [78, 111, 116, 65, 68, 105, 114, 101, 99, 116, 111, 114, 121, 69, 114, 114, 111, 114]
+
+/-- `/k` is a regular file; `os.stat("/d/f")` and `os.stat("/d/f (deleted)")` fail with ENOTDIR (`/d` was a
+    directory, was removed, and a regular file was created under its name) -/
+def fsNotDir : FS :=
+  { isFile := fun p => p == [47, 107], pathExists := fun p => p == [47, 107]
+    statErr := fun p =>
+      if p == [47, 100, 47, 102] || p == [47, 100, 47, 102] ++ delText then some ⟨20, clsNotADirectoryError, by decide⟩
+      else none }
+
+/-- live process: `4 -> /d/f (deleted)` (unlinked together with its directory) and `3 -> /k` -/
+def wNotDir : World :=
+  { fds := [⟨4, .regular [47, 100, 47, 102] true, 0, 1, [], none, none⟩,
+            ⟨3, .regular [47, 107] false, 5, 0o2002, [], none, none⟩]
+    fs := fsNotDir, goneBefore := false, diesAt := none }
+
+/-- the seeded defect as a configuration: `isfile_strict` with the single clause
+    `except FileNotFoundError: return False` -/
+def cfgNarrowIsfile : Cfg := { cfg with isfileHandlers := [([clsFileNotFoundError], true)] }
+
+/-- the same narrowing in `path_exists_strict` -/
+def cfgNarrowExists : Cfg := { cfg with existsHandlers := [([clsFileNotFoundError], true)] }
+
+theorem fsNotDir_coherent : StatCoherent fsNotDir := by
+  intro p hp
+  have hp' : p = [47, 100, 47, 102] ∨ p = [47, 100, 47, 102] ++ delText := by
+    by_contra hne
+    simp only [not_or] at hne
+    simp [fsNotDir, hne.1] at hp
+    exact hne.2 (by simpa using hp)
+  rcases hp' with rfl | rfl <;> decide
+
+/-- non-vacuity and the witness: the code as it is lists descriptor 3 and leaves descriptor 4 out … -/
+theorem C14_unstatable_witness :
+    Live wNotDir ∧ Inspectable wNotDir ∧ (∀ d ∈ wNotDir.fds, WFFd wNotDir.fs d) ∧ StatCoherent wNotDir.fs ∧
+    openFiles cfg wNotDir.fs (renderWorld wNotDir) = .ok [⟨[47, 107], 3, 5, mAp, 0o2002⟩] := by
+  refine ⟨⟨rfl, rfl⟩, by unfold Inspectable; decide, by decide, fsNotDir_coherent, ?_⟩
+  rw [C14_open_files_exact wNotDir (by decide)]
+  decide
+
+/-- … and BOTH narrowings break the clause: with `isfile_strict` catching only FileNotFoundError the
+    NotADirectoryError leaves `open_files()` of a live process as a bare OSError subclass; with
+    `path_exists_strict` narrowed it is raised inside `readlink()` and re-raised by the loop's
+    `except OSError` handler (ENOTDIR is not one of the errnos it skips) -/
+theorem C14_unstatable_needs_catch_all :
+    ¬ UnstatableLeftOut_Full cfgNarrowIsfile ∧ ¬ UnstatableLeftOut_Full cfgNarrowExists ∧
+    openFiles cfgNarrowIsfile wNotDir.fs (renderWorld wNotDir) = .exc .osError ∧
+    openFiles cfgNarrowExists wNotDir.fs (renderWorld wNotDir) = .exc .osError := by
+  have hw := C14_unstatable_witness
+  have h1 : openFiles cfgNarrowIsfile wNotDir.fs (renderWorld wNotDir) = .exc .osError := by decide
+  have h2 : openFiles cfgNarrowExists wNotDir.fs (renderWorld wNotDir) = .exc .osError := by decide
+  refine ⟨fun h => ?_, fun h => ?_, h1, h2⟩
+  · have h3 := h wNotDir hw.1 hw.2.1 hw.2.2.1 hw.2.2.2.1
+    rw [h1] at h3
+    cases h3
+  · have h3 := h wNotDir hw.1 hw.2.1 hw.2.2.1 hw.2.2.2.1
+    rw [h2] at h3
+    cases h3
 
 end Psutil.C14
